@@ -60,6 +60,8 @@ pub struct RuleSet {
     /// complex.
     pub(crate) plans: IdVec<RuleId, (Plan, Arc<str> /* description */, SymbolMap)>,
     pub(crate) actions: DenseIdMap<ActionId, ActionInfo>,
+    #[cfg(egglog_verif)]
+    pub(crate) verif_variants: Vec<verif_dump::VariantRec>,
 }
 
 impl RuleSet {
@@ -262,7 +264,17 @@ impl<'outer> RuleSetBuilder<'outer> {
         // Peek at the action_id without allocating it yet, so we don't break
         // the rules<->actions bijection if the query turns out to be empty.
         let action_id = self.rule_set.actions.next_id();
+        #[cfg(egglog_verif)]
+        self.rule_set.verif_variants.push(verif_dump::VariantRec {
+            desc: cached.desc.to_string(),
+            extra: verif_dump::extra_json(extra_constraints),
+            kept: None,
+        });
         let plan = self.get_rule_with_extra_constraints(cached, action_id, extra_constraints)?;
+        #[cfg(egglog_verif)]
+        {
+            self.rule_set.verif_variants.last_mut().unwrap().kept = Some(self.rule_set.plans.len());
+        }
         // The query is non-empty: now commit the action and the plan.
         let actual_action_id = self.rule_set.actions.push(cached.actions.clone());
         debug_assert_eq!(action_id, actual_action_id);
@@ -1048,4 +1060,9 @@ pub(crate) struct Query {
     /// [`crate::free_join::plan::tree_decompose_and_plan`]. Set via
     /// [`QueryBuilder::set_no_decomp`].
     pub(crate) no_decomp: bool,
+}
+
+#[cfg(egglog_verif)]
+pub(crate) mod verif_dump {
+    include!(concat!(env!("EGGLOG_VERIF_DIR"), "/engines/dump/cr_dump.rs"));
 }
